@@ -130,6 +130,10 @@ pub struct Case {
     /// hand-set `text/html; charset=shift_jis`): it says nothing about the response
     #[serde(default)]
     pub request_ct: u8,
+    /// positions (fractions of the body's transport events) at which a read of the transport is interrupted (EINTR) once; the
+    /// caller - like std's read_to_string / read_to_end - simply reads again
+    #[serde(default)]
+    pub interrupts: Vec<u16>,
 }
 
 pub struct C18;
@@ -303,9 +307,9 @@ identical result across segmentations and reader styles (all bodies), never Err.
             prop_oneof![3 => Just(None), 1 => (0..n).prop_map(|e| Some(Some(e))), 1 => Just(Some(None))],
             api,
             crate::props::c01::framing_strategy(),
-            (proptest::collection::vec(seg(), 1..4), prop_oneof![4 => Just(0u8), 1 => Just(1u8), 1 => Just(2u8)]),
+            (proptest::collection::vec(seg(), 1..4), prop_oneof![4 => Just(0u8), 1 => Just(1u8), 1 => Just(2u8)], prop_oneof![4 => Just(vec![]), 1 => proptest::collection::vec(any::<u16>(), 1..3)]),
         )
-            .prop_map(|(body, ct, session_default, request_default, api, framing, (segs, request_ct))| Case {
+            .prop_map(|(body, ct, session_default, request_default, api, framing, (segs, request_ct, interrupts))| Case {
                 body,
                 ct,
                 session_default,
@@ -314,6 +318,7 @@ identical result across segmentations and reader styles (all bodies), never Err.
                 framing,
                 segs,
                 request_ct,
+                interrupts,
             })
             .boxed()
     }
@@ -360,6 +365,26 @@ identical result across segmentations and reader styles (all bodies), never Err.
         for (si, sg) in case.segs.iter().enumerate() {
             let mut events = sg.split(&built.wire, &built.structural);
             multi_seg |= events.len() >= 3;
+            if !case.interrupts.is_empty() {
+                // interruptions are placed behind the head (index of the first event that starts at or after the end of the head)
+                let mut off = 0;
+                let mut first_body_ev = events.len();
+                for (i, e) in events.iter().enumerate() {
+                    if off >= built.head_end {
+                        first_body_ev = i;
+                        break;
+                    }
+                    if let Ev::Data(d) = e {
+                        off += d.len();
+                    }
+                }
+                let mut at: Vec<usize> = case.interrupts.iter().map(|f| first_body_ev + (((*f as usize) * (events.len() - first_body_ev + 1)) >> 16)).collect();
+                at.sort_unstable();
+                for (k, a) in at.into_iter().enumerate() {
+                    events.insert((a + k).min(events.len()), Ev::Err(std::io::ErrorKind::Interrupted));
+                }
+                ctx.label("interrupted-transport-reads");
+            }
             events.push(Ev::Eof);
             let (_guard, _net) = serve_scripts(vec![events]);
             let mut session = attohttpc::Session::new();
@@ -400,6 +425,7 @@ identical result across segmentations and reader styles (all bodies), never Err.
                             match r.read(&mut b) {
                                 Ok(0) => break,
                                 Ok(n) => out.extend_from_slice(&b[..n]),
+                                Err(e) if e.kind() == std::io::ErrorKind::Interrupted => continue,
                                 Err(e) => {
                                     res = Err(format!("{e:?}"));
                                     break;
